@@ -209,6 +209,24 @@ theorem arrayClassMake_huge (mem : Mem α) (size : Int) (fuel : Nat) (h : 922337
   have : ¬ (0 ≤ size ∧ size < 9223372036854775808) := by omega
   simp [this]
 
+/-! ### `GetIterator`: the iterator walks over a private copy (C17: an iterator enumerates the collection as it was) -/
+
+/-- `array_.GetIterator` as written in array.go: the iterator is made from `v.AsArray()`, a NEW array with the current
+    contents -/
+theorem arrayGetIterator_tie (mem : Mem α) (p : Nat) (fuel : Nat) (hp : p < mem.length) (hint : IsInt64 ((mem.arr p).length : Int)) :
+    ∃ mem', Generated.arrayGetIterator (wholeA p (mem.arr p).length) mem fuel
+        = some (.ok (wholeA mem.length (mem.arr p).length, mem'))
+      ∧ mem'.arr mem.length = mem.arr p ∧ mem'.length = mem.length + 1 ∧ ∀ c, c < mem.length → mem'.arr c = mem.arr c := by
+  obtain ⟨mem', h1, h2, h3, h4⟩ := arrayAsArray_tie mem p fuel hp hint
+  refine ⟨mem', ?_, h2, h3, h4⟩
+  unfold Generated.arrayGetIterator
+  rw [h1]
+  rfl
+
+/-- … so a later `SetValue` on the array (any write to array `p`) leaves what the iterator walks over untouched -/
+theorem iterator_snapshot_unaffected (mem' : Mem α) (p it : Nat) (l : List α) (h : it ≠ p) :
+    (mem'.setArr p l).arr it = mem'.arr it := arr_setArr_otherA mem' p it l h
+
 /-- non-vacuity -/
 example : Generated.arrayGetValue (wholeA 0 3) (-1 : Int) [[(10 : Int), 20, 30]] 1 = some (.ok (30, [[10, 20, 30]])) := by rfl
 example : Generated.arrayGetValue (wholeA 0 3) (4 : Int) [[(10 : Int), 20, 30]] 1 = some (.error .outOfRange) := by rfl
